@@ -184,6 +184,8 @@ def pick_insertion(rng, o, d, prefer_knot=0.4, fine=False, mindist=1e-3, small=0
                 return u, 0, 'in-span'
     for _ in range(50):
         u = rng.uniform(a, b) if not fine else a + (b - a) * rng.choice([rng.uniform(0, 1e-4), rng.uniform(1e-4, 1e-2)])
-        if a < u < b and all(abs(u - k) >= (mindist if not fine else 1e-7) * (b - a) for k in set(U)):
+        # (fine: clear of every knot by more than the library's knot-matching tolerance, 1e-7 of the whole knot range - for an unclamped
+        # vector that is more than 1e-7 of the domain)
+        if a < u < b and all(abs(u - k) >= (mindist * (b - a) if not fine else 2.5e-7 * max(b - a, U[-1] - U[0])) for k in set(U)):
             return u, 0, 'in-span'
     return None
